@@ -23,9 +23,9 @@ RULE = (
     "flags and nested groups as parsed by FIXSchema; (2) valid instances of EVERY message type (all required "
     "members, random optional ones, must-accept or enumerated values, groups with 1-2 items starting with the "
     "first member, members in dictionary order, nested to the dictionary's depth; body-only and with full "
-    "header/trailer) which must validate; (3) single-fault mutants M1..M12 (missing required field / group, "
+    "header/trailer) which must validate; (3) single-fault mutants M1..M13 (missing required field / group, "
     "unknown tag, tag not allowed, non-enumerated value, must-reject value, field as group, group as field, "
-    "members swapped, foreign member, required member missing in an item, empty value; at top level and inside "
+    "members swapped, foreign member, required member missing in an item, empty value, member of a header repeating group as a plain body tag; at top level and inside "
     "(nested) items), a seed-independent sweep of message type x applicable class plus Hypothesis-drawn "
     "(type, population seed, class, position): each must raise FIXMessageError and nothing else; (4) the "
     "<components> declaration order permuted (reversed, sorted, random): same outcome for every corpus message "
@@ -38,7 +38,7 @@ ASSUMPTIONS = [
     "multiple-value strings with several enumerators, DATA/LENGTH fields and datatypes the library only warns about",
 ]
 DICTS = {"FIX44": "tests/FIX44.xml", "TT": "tests/TT-FIX44.xml"}
-CLASSES = ["M1", "M2", "M3", "M4", "M5", "M6", "M7", "M8", "M9", "M10", "M11", "M12"]
+CLASSES = ["M1", "M2", "M3", "M4", "M5", "M6", "M7", "M8", "M9", "M10", "M11", "M12", "M13"]
 _cache = {}
 
 
@@ -213,6 +213,20 @@ def mutate(rng, ref, mdef, entries, klass, pick):
             return None
         ent.append(("f", t, "x"))
         return ent, f"M4: dictionary tag {t} not allowed in {mdef.name} added", ()
+    if klass == "M13":
+        # a member of a repeating group of the <header> (FIX44.xml: NoHops -> 628/629/630) as a plain top-level tag of the
+        # body: known to the dictionary, part of no message and not a header field either
+        used = tree_tags(mdef.members)
+        cands = [(m2[1].tag, m2[1]) for m in ref.header if m[0] == "group" for m2 in m[3] if m2[0] == "field" and m2[1].tag not in used and not m2[1].enums]
+        c = choose(cands)
+        if c is None:
+            return None
+        t, f = c
+        val = {"STRING": "x", "UTCTIMESTAMP": "20230921-10:11:12", "SEQNUM": "1", "INT": "1"}.get(f.ftype.upper())
+        if val is None:
+            return None
+        ent.insert(rng.randrange(len(ent) + 1), ("f", t, val))
+        return ent, f"M13: member {t} of a header repeating group as a plain tag of {mdef.name}", ()
     # classes that apply at any site
     cands = []
     for path, lst, mem in all_sites:
